@@ -3,3 +3,6 @@
 package harness
 
 const raceEnabled = false
+
+// RaceEnabled reports whether the worker was built with -race.
+const RaceEnabled = false
